@@ -750,6 +750,8 @@ def cases(rng, tier):
                 out.append(dict(kind='sweep', call=dict(fn=fn, kw={}, args=[
                     catalog.A(dtype=dt, shape=shape, fill='bool' if dt == 'bool' else 'rand', seed=rng.randrange(1 << 30), layout='C'),
                     catalog.A(dtype=dt, shape=bs, fill=fill, seed=0, layout='C')])))
+    for call in catalog.directed_extreme_calls(rng):
+        out.append(dict(kind='sweep', call=call))
     fns = sorted(f for f in catalog.ENTRIES if f not in catalog.PURE_PYTHON)
     for i in range(nsweep):
         fn = fns[i % len(fns)] if i < 4 * len(fns) else rng.choice(fns)      # every entry point at least four times
